@@ -2,7 +2,7 @@
 From Coq Require Import String ZArith List Bool.
 Import ListNotations.
 From NV Require Import Mech.Syntax Mech.Machine Mech.Spec Mech.Invariants Mech.SpecFacts
-  Mech.Refine Mech.Broken Props.C12.
+  Mech.Refine Mech.RefineFull Mech.Broken Props.C12.
 
 Check (C12_blackhole_iff_on_stack :
   forall c, reachable c ->
@@ -61,3 +61,23 @@ Check (C12_session_equiv_broken_refuted :
   exists h k e n v,
     snd (sess_step_broken (fst (sess_run_broken empty_session h)) (IEval k e)) = OErr EInfRec /\
     spec_run n (defs_of h) e = Val v).
+
+Check (C12_session_equiv_full :
+  forall (h : list input) (k : nat) (e : tm),
+    match snd (sess_step (fst (sess_run empty_session h)) (IFull k e)) with
+    | OData d => exists n, spec_run_full n (defs_of h) e = Val d
+    | OErr EInfRec => forall n, spec_run_full n (defs_of h) e = OOF
+    | OErr c => exists n, spec_run_full n (defs_of h) e = Err c
+    | OBudget => True
+    | OBound | OOk _ => False
+    end).
+
+Check (C12_session_equiv_query :
+  forall (h : list input) (k : nat) (x : string) (path : list string),
+    match snd (sess_step (fst (sess_run empty_session h)) (IQuery k x path)) with
+    | OOk ob => exists n v, spec_run_query n (defs_of h) x path = Val v /\ sobs v = ob
+    | OErr EInfRec => forall n, spec_run_query n (defs_of h) x path = OOF
+    | OErr c => exists n, spec_run_query n (defs_of h) x path = Err c
+    | OBudget => True
+    | OBound | OData _ => False
+    end).
